@@ -171,7 +171,7 @@ pub fn per_order_linearizable(ex: &Execution, st: &mut LinStats) -> Vec<String> 
                     pos: 0,
                 });
             }
-            (COp::Cancel(id), CRes::Updated(Ok(Some(x)))) => {
+            (COp::Cancel(id), CRes::Updated(Ok(Some(x)))) | (COp::Move(id, _), CRes::Updated(Ok(Some(x)))) => {
                 evs.entry(model::key(id)).or_default().push(LEv {
                     k: EvK::Cancel { ret: *x },
                     call: r.call,
@@ -336,7 +336,9 @@ pub fn ack_truthful(ex: &Execution, st: &mut AckStats) -> (Vec<String>, u64) {
     let mut removals: HashMap<u128, Vec<(u64, u64)>> = HashMap::new();
     for r in &ex.log {
         match (&r.op, &r.res) {
-            (COp::Cancel(id), CRes::Updated(Ok(Some(_)))) => removals.entry(model::key(id)).or_default().push((r.call, r.ret)),
+            (COp::Cancel(id), CRes::Updated(Ok(Some(_)))) | (COp::Move(id, _), CRes::Updated(Ok(Some(_)))) => {
+                removals.entry(model::key(id)).or_default().push((r.call, r.ret))
+            }
             (COp::Match { .. }, CRes::Matched(m)) => {
                 for id in &m.filled_order_ids {
                     removals.entry(model::key(id)).or_default().push((r.call, r.ret));
@@ -355,7 +357,7 @@ pub fn ack_truthful(ex: &Execution, st: &mut AckStats) -> (Vec<String>, u64) {
         .collect();
     for r in &ex.log {
         let (id, is_cancel) = match &r.op {
-            COp::Cancel(id) => (model::key(id), true),
+            COp::Cancel(id) | COp::Move(id, _) => (model::key(id), true),
             COp::Amend { id, .. } => (model::key(id), false),
             _ => continue,
         };
@@ -445,7 +447,9 @@ pub fn ack_truthful(ex: &Execution, st: &mut AckStats) -> (Vec<String>, u64) {
                                 ));
                             }
                         }
-                        (COp::Cancel(i2), CRes::Updated(Ok(Some(_)))) | (COp::Amend { id: i2, .. }, CRes::Updated(Ok(Some(_))))
+                        (COp::Cancel(i2), CRes::Updated(Ok(Some(_))))
+                        | (COp::Move(i2, _), CRes::Updated(Ok(Some(_))))
+                        | (COp::Amend { id: i2, .. }, CRes::Updated(Ok(Some(_))))
                             if model::key(i2) == id =>
                         {
                             out.push(format!(
@@ -580,7 +584,7 @@ pub fn stats_vs_events(ex: &Execution) -> Vec<String> {
     for r in &ex.log {
         match (&r.op, &r.res) {
             (COp::Add(_), CRes::Added) => want[0] += 1,
-            (COp::Cancel(_), CRes::Updated(Ok(Some(_)))) => want[1] += 1,
+            (COp::Cancel(_), CRes::Updated(Ok(Some(_)))) | (COp::Move(_, _), CRes::Updated(Ok(Some(_)))) => want[1] += 1,
             (COp::Match { .. }, CRes::Matched(m)) => {
                 for t in m.transactions.as_vec() {
                     want[2] += t.quantity as u128;
